@@ -56,3 +56,7 @@ def cases(rng, tier):
 
 def search(rng, ops, broken):
     return cases(rng, "quick")
+
+
+# tie theorems (substrings of SLV.Gen.*Tie theorem names) this property's operators depend on
+TIE = ['deduce_of', 'projections', 'gen_deduce_eq_mul', 'Deduction', 'gen_mbr', 'Simplex_vacuous', 'is_vacuous', 'is_dogmatic', 'normalize_prob_dist', 'Simplex_normalized', 'OpinionRef_projection', 'Simplex_projection']
